@@ -63,6 +63,9 @@ pub enum Stream {
 	Ops { caps: [usize; 7], ops: Vec<ROp> },
 	Stale { kind: u8, gaps: [usize; 4], ibs: usize },
 	Sched { cap: usize, kind: u8, steps: Vec<u8>, callbacks: usize, switch_prob: f64 },
+	/// plays that fail inside `into_sound` on every kind of track handle (0 main, 1 sub-track,
+	/// 2 spatial sub-track, 3 spatial track nested in a sub-track), then the track is filled
+	FailingPlays { target: u8, n: usize, cap: usize, callbacks_between: usize },
 }
 
 #[derive(Clone, Debug, Serialize, Deserialize)]
@@ -81,7 +84,13 @@ fn gen_case(seed: u64, index: u64, tier: Tier) -> Case {
 			*rng.pick(&[1usize, 1, 2, 2, 3, 5])
 		}
 	};
-	let stream = match index % 4 {
+	let stream = match if index % 16 == 15 { 9 } else { index % 4 } {
+		9 => Stream::FailingPlays {
+			target: rng.below(4) as u8,
+			n: rng.urange(1, 6),
+			cap: *rng.pick(&[1usize, 2, 3]),
+			callbacks_between: rng.usize_below(2),
+		},
 		0 | 1 => {
 			let caps = [cap(&mut rng), cap(&mut rng), cap(&mut rng), cap(&mut rng), cap(&mut rng), cap(&mut rng), cap(&mut rng)];
 			let n = rng.urange(10, if tier == Tier::Quick { 70 } else { 200 });
@@ -1085,8 +1094,128 @@ fn run_sched(case: &Case, cap: usize, kind: u8, steps: &[u8], callbacks: usize, 
 	res
 }
 
+fn run_failing_plays(target: u8, n: usize, cap: usize, callbacks_between: usize) -> CaseResult {
+	let mut res = CaseResult::default();
+	let manager = monitor::catch(move || {
+		AudioManager::<SimBackend>::new(AudioManagerSettings {
+			main_track_builder: kira::track::MainTrackBuilder::new().sound_capacity(cap),
+			internal_buffer_size: 16,
+			backend_settings: SimBackendSettings { sample_rate: 8000 },
+			..Default::default()
+		})
+		.unwrap()
+	});
+	let Ok(mut manager) = manager else { return res };
+	let device = manager.backend_mut().device.clone();
+	enum T {
+		Main,
+		Plain(TrackHandle),
+		Spatial(kira::track::SpatialTrackHandle),
+	}
+	let mut keep: Vec<Box<dyn std::any::Any>> = vec![];
+	let built = monitor::catch(|| -> T {
+		match target {
+			0 => T::Main,
+			1 => T::Plain(manager.add_sub_track(TrackBuilder::new().sound_capacity(cap)).unwrap()),
+			2 => {
+				let l = manager.add_listener(glam::Vec3::ZERO, glam::Quat::IDENTITY).unwrap();
+				let t = manager.add_spatial_sub_track(&l, glam::Vec3::X, kira::track::SpatialTrackBuilder::new().sound_capacity(cap)).unwrap();
+				keep.push(Box::new(l));
+				T::Spatial(t)
+			}
+			_ => {
+				let l = manager.add_listener(glam::Vec3::ZERO, glam::Quat::IDENTITY).unwrap();
+				let mut p = manager.add_sub_track(TrackBuilder::new()).unwrap();
+				let t = p.add_spatial_sub_track(&l, glam::Vec3::X, kira::track::SpatialTrackBuilder::new().sound_capacity(cap)).unwrap();
+				keep.push(Box::new(l));
+				keep.push(Box::new(p));
+				T::Spatial(t)
+			}
+		}
+	});
+	let Ok(mut t) = built else {
+		res.fail(Violation::new("no-panic", "construction-panicked", "building the target track panicked".to_string()));
+		return res;
+	};
+	let mut out = Vec::new();
+	let count = |m: &mut AudioManager<SimBackend>, t: &T| -> usize {
+		match t {
+			T::Main => m.main_track().num_sounds(),
+			T::Plain(h) => h.num_sounds(),
+			T::Spatial(h) => h.num_sounds(),
+		}
+	};
+	let name = ["the main track", "a sub-track", "a spatial sub-track", "a spatial track nested in a sub-track"][target as usize % 4];
+	for k in 0..n {
+		let r = monitor::catch(|| match &mut t {
+			T::Main => manager.play(FailingSoundData).is_err(),
+			T::Plain(h) => h.play(FailingSoundData).is_err(),
+			T::Spatial(h) => h.play(FailingSoundData).is_err(),
+		});
+		match r {
+			Ok(true) => {}
+			Ok(false) => {
+				res.fail(Violation::new("capacity-accounting", "failing-sound-accepted", format!("play() of a sound whose into_sound() fails returned Ok on {name}")));
+				return res;
+			}
+			Err(p) => {
+				res.fail(Violation::new("no-panic", format!("creation-panicked: {}", panic_signature(&p)), format!("failing play on {name} panicked: {p}")));
+				return res;
+			}
+		}
+		for _ in 0..callbacks_between {
+			let _ = device.callback(16, 2, &mut out);
+		}
+		let c = count(&mut manager, &t);
+		if c != 0 {
+			res.fail(Violation::new(
+				"capacity-accounting",
+				"failed-play-uses-a-slot",
+				format!("after {} play() call(s) that failed inside into_sound(), {name} reports {c} sounds (capacity {cap}); nothing was created", k + 1),
+			));
+			return res;
+		}
+	}
+	// the whole capacity is still there
+	let mut handles = vec![];
+	for k in 0..cap + 1 {
+		let data = ProbeSoundData { id: k as u32 + 1, amp: 0.01, finish_after: u64::MAX };
+		let r = monitor::catch(|| match &mut t {
+			T::Main => manager.play(data),
+			T::Plain(h) => h.play(data),
+			T::Spatial(h) => h.play(data),
+		});
+		let Ok(r) = r else {
+			res.fail(Violation::new("no-panic", "creation-panicked", format!("play on {name} panicked")));
+			return res;
+		};
+		if r.is_ok() != (k < cap) {
+			res.fail(Violation::new(
+				"capacity-accounting",
+				if r.is_ok() { "created-beyond-capacity" } else { "refused-below-capacity" },
+				format!("after {n} failed plays on {name} (capacity {cap}), real play number {} {}", k + 1, if r.is_ok() { "succeeded" } else { "was refused" }),
+			));
+			return res;
+		}
+		if let Ok(h) = r {
+			handles.push(h);
+		}
+	}
+	res.hit("failing_play_scenarios");
+	res.hit(&format!("failing_play.target{target}"));
+	res.nontrivial = true;
+	res.callbacks = (n * callbacks_between) as u64;
+	res.behaviour_sig = (target as u64) << 16 | (n as u64) << 8 | cap as u64 | (callbacks_between as u64) << 24;
+	res.trace_hash = res.behaviour_sig;
+	drop(handles);
+	drop(t);
+	drop(keep);
+	res
+}
+
 pub fn run_case(case: &Case) -> CaseResult {
 	match &case.stream {
+		Stream::FailingPlays { target, n, cap, callbacks_between } => run_failing_plays(*target, *n, *cap, *callbacks_between),
 		Stream::Ops { caps, ops } => run_ops(case, caps, ops),
 		Stream::Stale { kind, gaps, ibs } => run_stale(case, *kind, gaps, *ibs),
 		Stream::Sched { cap, kind, steps, callbacks, switch_prob } => run_sched(case, *cap, *kind, steps, *callbacks, *switch_prob),
@@ -1100,7 +1229,7 @@ impl Check for C08 {
 		CheckInfo {
 			id: "C08",
 			level: "exploration",
-			rule: "three streams. ops (1/2): seeded history over create / drop / finish / play-a-sound-whose-into_sound-fails / callback for sub-tracks, nested tracks, send tracks, clocks, modulators, listeners, main-track sounds and track sounds at capacities drawn from {0, 1, 2, 3, 5}, counts queried after every op; stale (1/4): one-slot arenas, an id (clock / modulator / send track / listener) is left dangling while a newcomer takes the slot, with seeded numbers of callbacks between the steps; sched (1/4): gameplay task (create / drop / count on a capacity-1..3 arena of tracks, clocks or sounds) against an audio task under seeded random schedules at the yield points in try_reserve, insert_with_key, remove_and_add and remove_unused; non-trivial = at least one resource created; distinct = hash of the occupancy sequence (ops), of the scenario parameters (stale), of the yield trace (sched)",
+			rule: "four streams. failing plays (1/16): n plays that fail inside into_sound() on the main track / a sub-track / a spatial sub-track / a spatial track nested in a sub-track (no slot may be used up), then the track is filled to its capacity; ops (1/2): seeded history over create / drop / finish / play-a-sound-whose-into_sound-fails / callback for sub-tracks, nested tracks, send tracks, clocks, modulators, listeners, main-track sounds and track sounds at capacities drawn from {0, 1, 2, 3, 5}, counts queried after every op; stale (1/4): one-slot arenas, an id (clock / modulator / send track / listener) is left dangling while a newcomer takes the slot, with seeded numbers of callbacks between the steps; sched (1/4): gameplay task (create / drop / count on a capacity-1..3 arena of tracks, clocks or sounds) against an audio task under seeded random schedules at the yield points in try_reserve, insert_with_key, remove_and_add and remove_unused; non-trivial = at least one resource created; distinct = hash of the occupancy sequence (ops), of the scenario parameters (stale), of the yield trace (sched)",
 			assumptions: vec![
 				"tracks are dropped together with the handles of their nested tracks (other orders and persist_until_sounds_finish belong to C12)".into(),
 				"sched stream: a removal is an interval (invoke..return of the audio-side step); creation must succeed if even the latest admissible removals leave a free slot and must fail if even the earliest admissible ones do not".into(),
